@@ -102,6 +102,40 @@ func runC11(c *Ctx) {
 	c.Check("C11.K1", "prefix-constants", prefixes[0] == "/service" && prefixes[1] == "/publicKey", V.Pos(), fmt.Sprintf("protected prefixes derive from document.ServiceProperty / PublicKeyProperty: %v", prefixes))
 
 	memberOf := func(path, K string) bool { return strings.Contains(path, `["`+K+`"]`) }
+	// (a decoding helper of the validator — `decodeJSONPointer(msg, name) (string, error)`: one success exit handing back
+	// the variable json.Unmarshal filled — reads as the decoded member it is handed)
+	{
+		jsonU := c.ExtFn("encoding/json", "Unmarshal")
+		saved := c.inlineFns
+		c.inlineFns = map[*ssa.Function]bool{}
+		for k, v := range saved {
+			c.inlineFns[k] = v
+		}
+		defer func() { c.inlineFns = saved }()
+		for _, g := range c.helpersOf(V, 2) {
+			srs := successReturns(g)
+			if len(srs) != 1 || len(srs[0].Results) != 2 {
+				continue
+			}
+			ld, isLd := returnedValue(srs[0], 0).(*ssa.UnOp)
+			if !isLd || ld.Op != token.MUL {
+				continue
+			}
+			al, isAl := ld.X.(*ssa.Alloc)
+			if !isAl {
+				continue
+			}
+			filled := false
+			for _, cl := range callsTo(g, jsonU) {
+				if mi, isMI := cl.Call.Args[1].(*ssa.MakeInterface); isMI && mi.X == ssa.Value(al) {
+					filled = true
+				}
+			}
+			if filled {
+				c.inlineFns[g] = true
+			}
+		}
+	}
 	for _, K := range keys {
 		if strings.HasPrefix(K, "<") {
 			continue
@@ -163,6 +197,8 @@ func runC11(c *Ctx) {
 						a0, pre, ok := c.prefixTest(call, env)
 						return ok && pre == "/" && isDecodedK(a0)
 					}},
+					// (the first byte compared with '/': the same test, written on the byte)
+					cmpAccept(`pointer[0] == '/'`, token.EQL, func(a string) bool { return strings.HasSuffix(a, "[0]") && isDecodedK(strings.TrimSuffix(a, "[0]")) }, pathIs("47")),
 					cmpAccept(`pointer == ""`, token.EQL, isDecodedK, pathIs(`""`)))
 				c.checkPointerMember("C11.X2", V, K, "well-formed", chk, memberOf)
 			}
